@@ -1041,7 +1041,7 @@ func (d *decExtractor) readerLoop(f *ast.File, run, initialize *ast.FuncDecl, fa
 }
 
 // skeleton renders the body of a function with what the statement-level model does not follow removed:
-// `if <recv>.debug { … }` statements, the bodies of function literals, and the error plumbing
+// `if <recv>.debug { … }` statements, value-less `var` declarations, the bodies of function literals, and the error plumbing
 // (`if err = f(); err != nil { return }` becomes `must(f())`).  Everything else — loop conditions, the order of the
 // calls, assignments, continue / return — is kept, alpha-normalised.
 func (d *decExtractor) skeleton(fd *ast.FuncDecl) string {
@@ -1050,6 +1050,20 @@ func (d *decExtractor) skeleton(fd *ast.FuncDecl) string {
 	strip = func(l []ast.Stmt) []ast.Stmt {
 		var out []ast.Stmt
 		for _, s := range l {
+			// `var x T` without a value: no behaviour, and where it stands is a matter of taste
+			if ds, ok := s.(*ast.DeclStmt); ok {
+				if gd, ok := ds.Decl.(*ast.GenDecl); ok && gd.Tok == token.VAR {
+					bare := true
+					for _, sp := range gd.Specs {
+						if vs, ok := sp.(*ast.ValueSpec); !ok || len(vs.Values) != 0 {
+							bare = false
+						}
+					}
+					if bare {
+						continue
+					}
+				}
+			}
 			if is, ok := s.(*ast.IfStmt); ok && is.Else == nil {
 				if is.Init == nil && d.render(is.Cond) == "$r.debug" {
 					continue
